@@ -31,7 +31,14 @@ import (
 // instead of using the MSAT array, in the same way that any other stream works.
 func (r *ComDoc) readShortSAT() error {
 	count := r.SectorSize / 4
-	sat := make([]SecID, count*int(r.Header.SSATSectorCount))
+	// size the table by the length of its chain, not by the header's claim
+	chain, err := r.chainLength(r.Header.SSATNextSector)
+	if err != nil {
+		return err
+	} else if uint32(chain) > r.Header.SSATSectorCount {
+		return errors.New("ssat has more sectors than indicated")
+	}
+	sat := make([]SecID, count*chain)
 	position := 0
 	for sector := r.Header.SSATNextSector; sector >= 0; sector = r.SAT[sector] {
 		if position >= len(sat) {
@@ -91,7 +98,13 @@ func (r *ComDoc) readShortSector(shortSector SecID, buf []byte) (int, error) {
 	bigSectorIndex := int(shortSector) * r.ShortSectorSize / r.SectorSize
 	bigSectorID := r.Files[r.rootStorage].NextSector
 	for i := 0; i < bigSectorIndex; i++ {
+		if bigSectorID < 0 || int(bigSectorID) >= len(r.SAT) {
+			return 0, errors.New("short sector is outside the short-sector stream")
+		}
 		bigSectorID = r.SAT[bigSectorID]
+	}
+	if bigSectorID < 0 || shortSector < 0 {
+		return 0, errors.New("short sector is outside the short-sector stream")
 	}
 	// translate to a file position
 	n := r.sectorToOffset(bigSectorID)
